@@ -1171,9 +1171,35 @@ m("C11", "refactor-split-find", T,
 
 # ---- C18 -------------------------------------------------------------------
 m("C18", "stale-ns-key-kept", ZP,
-  '''            if i < len(keys):
-                ns_attrs.pop(keys[i], None)
+  '''            ns_attrs.pop((attr['namespace'], attr['name']), None)
 ''', '')
+m("C18", "stale-ns-key-wrong", ZP,
+  '''            ns_attrs.pop((attr['namespace'], attr['name']), None)
+''', '''            ns_attrs.pop((namespace, attr['name']), None)
+''')
+m("C18", "namespace-recorded-for-unprefixed-only", "parser.py",
+  '''        else:
+            ns = default
+        # Several attributes may share one expanded name (``lang`` and
+        # ``xml:lang`` on an element without a namespace): the mapping
+        # holds one entry for them, each attribute knows its own.
+        attribute['namespace'] = ns
+''', '''        else:
+            ns = default
+            attribute['namespace'] = ns
+''')
+m("C18", "namespace-recorded-is-the-default", "parser.py",
+  "        attribute['namespace'] = ns\n",
+  "        attribute['namespace'] = default\n")
+m("C18", "drop-set-paired-by-position-again", "tal.py",
+  '''            for attribute in attrs
+            if attribute['namespace'] in drop_ns or (
+                attribute['namespace'] == XMLNS_NS and
+                attribute['value'] in drop_ns)}''',
+  '''            for attribute, (ns, value) in zip(attrs, ns_attributes)
+            if ns in drop_ns or (
+                ns == XMLNS_NS and
+                attribute['value'] in drop_ns)}''')
 m("C18", "any-prefix-converted", ZP,
   '''            namespace = namespaces.get(prefix)
             if namespace not in (TAL, METAL, I18N, META):
@@ -1200,10 +1226,10 @@ m("C18", "end-tag-pops-two", PA,
 m("C18", "meta-not-dropped", ZP,
   "    DROP_NS = TAL, METAL, I18N, META\n", "    DROP_NS = TAL, METAL, I18N\n")
 m("C18", "xmlns-declarations-kept", TL,
-  '''            if ns in drop_ns or (
-                ns == XMLNS_NS and
+  '''            if attribute['namespace'] in drop_ns or (
+                attribute['namespace'] == XMLNS_NS and
                 attribute['value'] in drop_ns)}''',
-  '''            if ns in drop_ns}''')
+  '''            if attribute['namespace'] in drop_ns}''')
 m("C18", "i18n-not-validated", ZP,
   "        validate_attributes(ns, I18N, i18n.WHITELIST)\n", "")
 m("C18", "empty-tag-pushes", PA,
